@@ -1,14 +1,14 @@
 #!/bin/bash
-# Must-fail corpus: every patch under mutants/<PROP>/ and seeded/<PROP>/patch.diff is applied to a scratch worktree
+# Must-fail corpus: every patch under mutants/<PROP>/ and seeded/<PROP>[b..]/patch.diff is applied to a scratch worktree
 # of /repo (under $TMPDIR, removed afterwards) and the property's check must report a VIOLATION (exit 1).
 # Usage: tools/selftest.sh [PROP...]       exit 0 iff every change is detected.
 cd "$(dirname "$0")/.." || exit 2
 export GOFLAGS=-mod=mod GOPROXY=off GOTOOLCHAIN=auto; unset GOSUMDB
 [ -x bin/gcv ] || (cd engine && go build -o ../bin/gcv ./cmd/gcv) || exit 2
-PROPS="$@"; [ -z "$PROPS" ] && PROPS=$(ls mutants seeded 2>/dev/null | grep '^C[0-9]' | sort -u)
+PROPS="$@"; [ -z "$PROPS" ] && PROPS=$(ls mutants seeded 2>/dev/null | grep -o '^C[0-9][0-9]' | sort -u)
 T=${TMPDIR:-/tmp}; missed=0; total=0
 for p in $PROPS; do
-  for patch in mutants/$p/*.patch seeded/$p/patch.diff; do
+  for patch in mutants/$p/*.patch seeded/$p/patch.diff seeded/${p}[a-z]/patch.diff; do
     [ -f "$patch" ] || continue
     total=$((total+1))
     WT=$T/gcv-selftest-$$-$total
